@@ -59,4 +59,5 @@ c.loop(1, "spec.entropy_pos(entropy_f) >= 0", name="pos")
 c.ensures("start <= result and result < stop", name="in-range", tags="C11 C04 C01")
 c.ensures("result == start + spec.rr(stop - start, entropy_f, 0)", name="rejection-sampling", tags="C11 C03 C16")
 c.ensures("spec.entropy_sizes_all(spec.size_bytes(stop - start))", name="block-size", tags="C11 C16")
+c.ensures("spec.no_global_entropy()", name="entropy-only-from-the-argument", tags="C11 C16 C04")
 c.canary("result == start + spec.rr(stop - start, entropy_f, 1)")
